@@ -168,6 +168,16 @@ def run(ctx):
         clauses = []
         for t_, d, rb in cb.return_values():
             t_ = strip(util.inline_calls(prog, strip(t_)))
+            # `[(side of a, side of b), ..].iter().all(|pair| |d_a - d_b| < tolerance)`: one clause per element of the literal array
+            if isinstance(t_, tuple) and t_[0] == 'call' and cname(t_[1]) == 'Iterator::all' and len(t_) == 4:
+                base, ad = util.iter_chain(t_[2])
+                base = strip(base)
+                acb, acaps = util.closure_of_term(prog, t_[3])
+                arv = acb.return_values() if acb is not None else []
+                if isinstance(base, tuple) and base[0] == 'agg' and base[1] == 'array' and all(a in ('iter', 'into_iter', 'copied', 'cloned') for a in ad) and len(arv) == 1:
+                    for e in base[2:]:
+                        clauses.append(strip(util.peval(prog, util.subst_closure(acb, arv[0][0], list(acaps), [e]))))
+                    continue
             if isinstance(t_, tuple) and t_[0] == 'bin':
                 clauses.append(t_)
                 for g, k, sw in cb.guard_terms(d[1]):
